@@ -78,7 +78,10 @@ fn through_door<T: Target>(door: Door, scene: &Scene, faces: &[Tri<usize>], vert
         Door::Render => render(faces, verts, sh, (), vp, target, ctx),
         Door::Batch => Batch::new().faces(faces).vertices(verts).uniform(()).shader(sh.clone()).viewport(vp).target(target).context(ctx).render(),
         Door::Camera => {
-            let cam = Camera { mode: Mat4x4::<RealToReal<3, World, re::render::View>>::identity(), dims: (r.abs_diff(l), b.abs_diff(t)), project: Mat4x4::identity(), viewport: vp };
+            // through the public builder: frame = buffer size, viewport = requested rectangle, identity view and projection
+            let mut cam = Camera::new((scene.bw, scene.bh)).mode(Mat4x4::<RealToReal<3, World, re::render::View>>::identity());
+            if l <= r && t <= b { cam = cam.viewport((l..r, t..b)); } else { cam.viewport = vp; }
+            cam.project = Mat4x4::identity();
             let to_world: Mat4x4<RealToReal<3, World, World>> = Mat4x4::identity();
             cam.render(faces, verts, &to_world, sh, (), target, ctx)
         }
